@@ -419,6 +419,16 @@ def run (env : Env) (s : St) (i : Nat) : Bytes → Outcome
     | .ok s' => run env s' (i + 1) bs
     | .error (c, a) => .err c (errIdx env a i)
 
+/-- Bool-valued tests on outcomes (for kernel-evaluated examples: `decide +kernel`) -/
+def Outcome.isErr (o : Outcome) (c : Code) (idx : Nat) : Bool :=
+  match o with
+  | .err c' i => c' == c && i == idx
+  | .ok _ => false
+def Outcome.isOk (o : Outcome) (v : JV) : Bool :=
+  match o with
+  | .ok v' => JV.beq v' v
+  | .err _ _ => false
+
 def init : St := { mode := .val .top }
 
 /-- `from_str` / `from_slice` / `from_reader` into `Value` or `IgnoredAny` -/
